@@ -1,6 +1,6 @@
 (* GenTypes.v — record types of the tables that extract/cxx_facts.py
    regenerates from the C++ sources on every run (coq/gen/Gen*.v). *)
-From Coq Require Import List ZArith String Bool Ascii.
+From Coq Require Import List ZArith NArith String Bool Ascii.
 Import ListNotations.
 Local Open Scope string_scope.
 
@@ -44,6 +44,9 @@ Record static_row := {
 Inductive lex_acc :=
 | AccSpecifierWord (w : string) | AccQualifierWord (w : string)
 | AccBuiltin (enumerator : string) | AccConstant (var : string) | AccUntranslatable.
+
+Fixpoint bytes_of_string (s : string) : list N :=
+  match s with EmptyString => [] | String c r => N_of_ascii c :: bytes_of_string r end.
 
 Definition streq (a b : string) : bool := String.eqb a b.
 
